@@ -161,6 +161,14 @@ PPL::Grid::limited_congruence_extrapolation_assign(const Grid& y,
                                                    const Congruence_System& cgs,
                                                    unsigned* tp) {
   Grid& x = *this;
+  // `cgs' may be (a reference to) the congruence system of `x' or of `y'
+  // (e.g., x.congruences()): the lazy updates below rewrite that system
+  // while `cgs' is still being read.  Work on a copy.
+  if (&cgs == &x.con_sys || &cgs == &y.con_sys) {
+    const Congruence_System cgs_copy(cgs);
+    x.limited_congruence_extrapolation_assign(y, cgs_copy, tp);
+    return;
+  }
 
   // Check dimension compatibility.
   if (x.space_dim != y.space_dim) {
@@ -370,6 +378,14 @@ PPL::Grid::limited_generator_extrapolation_assign(const Grid& y,
                                                   const Congruence_System& cgs,
                                                   unsigned* tp) {
   Grid& x = *this;
+  // `cgs' may be (a reference to) the congruence system of `x' or of `y'
+  // (e.g., x.congruences()): the lazy updates below rewrite that system
+  // while `cgs' is still being read.  Work on a copy.
+  if (&cgs == &x.con_sys || &cgs == &y.con_sys) {
+    const Congruence_System cgs_copy(cgs);
+    x.limited_generator_extrapolation_assign(y, cgs_copy, tp);
+    return;
+  }
 
   // Check dimension compatibility.
   if (x.space_dim != y.space_dim) {
@@ -471,6 +487,14 @@ PPL::Grid::limited_extrapolation_assign(const Grid& y,
                                         const Congruence_System& cgs,
                                         unsigned* tp) {
   Grid& x = *this;
+  // `cgs' may be (a reference to) the congruence system of `x' or of `y'
+  // (e.g., x.congruences()): the lazy updates below rewrite that system
+  // while `cgs' is still being read.  Work on a copy.
+  if (&cgs == &x.con_sys || &cgs == &y.con_sys) {
+    const Congruence_System cgs_copy(cgs);
+    x.limited_extrapolation_assign(y, cgs_copy, tp);
+    return;
+  }
 
   // Check dimension compatibility.
   if (x.space_dim != y.space_dim) {
